@@ -108,7 +108,9 @@ func (s *SubgraphRequestSingleFlight) GetOrCreateItem(fetchItem *FetchItem, inpu
 func (s *SubgraphRequestSingleFlight) Finish(item *SingleFlightItem) {
 	shard := s.shardFor(item.SFKey)
 	shard.items.Delete(item.SFKey)
+	verifPoint("sfs.fin.deleted", item.SFKey, 0)
 	close(item.loaded)
+	verifPoint("sfs.fin.closed", item.SFKey, 0)
 
 	sizeValue, ok := shard.sizes.Load(item.FetchKey)
 	if !ok {
